@@ -138,4 +138,144 @@ theorem lazyScan_stop {test : Test} (ht : TestQuiet test) (setext : Bool) :
       obtain ⟨h1, h2, h3⟩ := ih _ _ _ _ _ h
       exact ⟨h1, by omega, h3⟩
 
+
+/-- what the paragraph rule does in real mode, under a quiet sweep: it always accepts; the new state is
+    the old one at the line where the scan stopped, with one `Paragraph` node more -/
+theorem paragraph_ok {test : Test} (ht : TestQuiet test) {fuel : Nat} {s s' : BState} {b : Bool}
+    (h : paragraphRule test fuel s false = .ok (b, s')) :
+    b = true ∧ ∃ l lvl r content mapping, lazyScan test false fuel s s.line = .ok (l, lvl, s) ∧
+      s' = upd { s with line := l }
+        (s.children ++ [⟨.paragraph, some r, [⟨.inlineRoot content mapping, none, []⟩]⟩]) s.tight s.refs := by
+  unfold paragraphRule at h
+  simp only [Bool.false_eq_true, if_false] at h
+  obtain ⟨⟨l, lvl, s0⟩, hs, h⟩ := bind_ok.mp h
+  obtain ⟨rfl, _, _⟩ := lazyScan_stop ht false _ _ _ _ _ _ hs
+  dsimp only at h
+  obtain ⟨⟨content, mapping⟩, hg, h⟩ := bind_ok.mp h
+  dsimp only at h
+  obtain ⟨e, he, h⟩ := bind_ok.mp h
+  obtain ⟨r, hr, h⟩ := bind_ok.mp h
+  simp only [pure_ok, Prod.mk.injEq] at h
+  obtain ⟨rfl, rfl⟩ := h
+  exact ⟨rfl, l, lvl, r, content, mapping, hs, by cases s0; rfl⟩
+
+/-! ## the chain -/
+
+section chain
+variable {ι : Type} {run : ι → BState → Bool → Res}
+
+/-- every member of `pre` declines on `s` and leaves it as it was -/
+def Declined (run : ι → BState → Bool → Res) (pre : List ι) (s : BState) (silent : Bool) : Prop :=
+  ∀ j ∈ pre, run j s silent = .ok (false, s)
+
+/-- **faithfulness of `Declined`**: the chain goes through a declining prefix and calls the next member
+    on the very state -/
+theorem runChainG_declined {pre : List ι} {s : BState} {silent : Bool} (h : Declined run pre s silent)
+    (post : List ι) : runChainG run (pre ++ post) s silent = runChainG run post s silent := by
+  induction pre with
+  | nil => rfl
+  | cons p pre ih =>
+    simp only [List.cons_append, runChainG, h p (List.mem_cons_self ..)]
+    exact ih (fun j hj => h j (List.mem_cons_of_mem _ hj))
+
+/-- a `true` of the chain comes from its first member that says `true`, reached on the untouched state -/
+theorem chain_true_split (hno : ∀ i s s', run i s silent = .ok (false, s') → s' = s) :
+    ∀ (chain : List ι) {s s1 : BState}, runChainG run chain s silent = .ok (true, s1) →
+      ∃ pre j post, chain = pre ++ j :: post ∧ Declined run pre s silent ∧ run j s silent = .ok (true, s1) := by
+  intro chain
+  induction chain with
+  | nil => intro s s1 h; simp [runChainG] at h
+  | cons r rs ih =>
+    intro s s1 h
+    simp only [runChainG] at h
+    split at h
+    · cases h
+    · rename_i s' hr
+      simp only [Except.ok.injEq, Prod.mk.injEq, true_and] at h
+      subst h
+      exact ⟨[], r, rs, rfl, fun _ hj => by cases hj, hr⟩
+    · rename_i s' hr
+      have := hno _ _ _ hr
+      subst this
+      obtain ⟨pre, j, post, rfl, hd, hj⟩ := ih h
+      refine ⟨r :: pre, j, post, rfl, ?_, hj⟩
+      intro k hk
+      rcases List.mem_cons.mp hk with rfl | hk
+      · exact hr
+      · exact hd k hk
+
+/-- **look-ahead and real parsing agree on the chain**: if the first look-ahead yes on `s` is member `j`
+    (behind `pre`), then the real chain on `s`, when it returns, accepts — with `j` itself, or with a
+    member of `pre` (one that declines in look-ahead mode and accepts in real mode) -/
+theorem chain_agree (hfs : ∀ i s s', run i s false = .ok (false, s') → s' = s)
+    (hsr : ∀ i s s1 s2 b, run i s true = .ok (true, s1) → run i s false = .ok (b, s2) → b = true) :
+    ∀ (pre : List ι) (j : ι) (post : List ι) {s s1 s2 : BState} {b : Bool},
+      run j s true = .ok (true, s1) → runChainG run (pre ++ j :: post) s false = .ok (b, s2) →
+      b = true ∧ ∃ pre' j' post', pre ++ j :: post = pre' ++ j' :: post' ∧ Declined run pre' s false ∧
+        run j' s false = .ok (true, s2) ∧ pre'.length ≤ pre.length ∧ (pre'.length = pre.length → j' = j) := by
+  intro pre
+  induction pre with
+  | nil =>
+    intro j post s s1 s2 b hj h
+    simp only [List.nil_append, runChainG] at h
+    split at h
+    · cases h
+    · rename_i s' hr
+      simp only [Except.ok.injEq, Prod.mk.injEq] at h
+      obtain ⟨rfl, rfl⟩ := h
+      exact ⟨rfl, [], j, post, rfl, fun _ hk => by cases hk, hr, Nat.le_refl _, fun _ => rfl⟩
+    · rename_i s' hr
+      exact absurd (hsr _ _ _ _ _ hj hr) (by simp)
+  | cons p pre ih =>
+    intro j post s s1 s2 b hj h
+    simp only [List.cons_append, runChainG] at h
+    split at h
+    · cases h
+    · rename_i s' hr
+      simp only [Except.ok.injEq, Prod.mk.injEq] at h
+      obtain ⟨rfl, rfl⟩ := h
+      exact ⟨rfl, [], p, pre ++ j :: post, rfl, fun _ hk => by cases hk, hr, by simp, fun h => by simp at h⟩
+    · rename_i s' hr
+      have := hfs _ _ _ hr
+      subst this
+      obtain ⟨hb, pre', j', post', he, hd, hj', hlen, heq⟩ := ih j post hj h
+      refine ⟨hb, p :: pre', j', post', by rw [List.cons_append, he]; rfl, ?_, hj', by simp; omega, fun h => heq (by simpa using h)⟩
+      intro k hk
+      rcases List.mem_cons.mp hk with rfl | hk
+      · exact hr
+      · exact hd k hk
+
+end chain
+
+/-! ## an iteration that runs the chain -/
+
+/-- the loop standing at `s` runs the chain, on the state `sE` (`s` behind its blank lines) -/
+structure RunsChain (mn : Nat) (s sE : BState) : Prop where
+  lt : s.line < s.lineMax
+  eq : sE = { s with line := Lines.skipEmptyLines s.offs s.lineMax s.line }
+  ltE : sE.line < sE.lineMax
+  ind : ∃ ind, sE.lineIndent sE.line = .ok ind ∧ 0 ≤ ind
+  lvl : sE.level < mn
+
+/-- the statements of the loop body behind the chain -/
+def afterStep (hasEmpty : Bool) (prevLine : Nat) (r : Bool × BState) : Except Panic StepRes := do
+  let s ← afterChain r.1 r.2 prevLine
+  let s := { s with tight := !hasEmpty }
+  let l1 ← psub s.line 1
+  let hasEmpty := hasEmpty || s.isEmpty l1
+  if s.line < s.lineMax ∧ s.isEmpty s.line then .ok (.next true { s with line := s.line + 1 })
+  else .ok (.next hasEmpty s)
+
+/-- **faithfulness of `RunsChain`**: the iteration IS the real chain on `sE`, then `afterStep` -/
+theorem tokStepG_runs {ι : Type} {mn : Nat} {chain : List ι} {run : ι → BState → Bool → Res} {he : Bool}
+    {s sE : BState} (h : RunsChain mn s sE) :
+    tokStepG mn chain run he s = (runChainG run chain sE false >>= afterStep he sE.line) := by
+  obtain ⟨h1, rfl, h2, ⟨ind, h3, h4⟩, h5⟩ := h
+  unfold tokStepG
+  simp only [h1, not_true_eq_false, if_false]
+  rw [if_neg (by omega)]
+  simp only [h3, ok_bind]
+  rw [if_neg (by omega), if_neg (by omega)]
+  rfl
+
 end MdIt.BlockH.C16
